@@ -820,7 +820,8 @@ def random_redecl_history(rng, n):
         elif x < 0.72:
             # (an operation whose declaration gave no method cannot leave its class through a plain call: delattr
             #  fails in the middle; that is outside the property and outside the sequence reading of 'redecl')
-            known = dead + [x for x in live if has_method.get(x)]
+            # (nor is a failing re-declaration in place: the old method stays, where remove + add leaves none)
+            known = dead + [x for x in live if has_method.get(x) and in_quantifier(x[1], t.find_op(*x)[1])]
             if not known:
                 continue
             src, nm = rng.choice(known)
